@@ -1,0 +1,22 @@
+//go:build verif
+
+// Contracts for package ioutil2, checked by /verif/govc. Comment-only: no code.
+package ioutil2
+
+// Reading wraps around at end of file until the configured number of passes is done; after the last pass the end of file is reported.
+//@ func (r *MultiPassReader) Read
+//@ props C08 C13
+//@ nilsafe
+//@ requires r.rs != nil
+//@ ensures [data-and-count-as-read] n == result_of(r.rs.Read, 0)
+//@ ensures [passes-counted-at-end-of-file] r.passesCount == old(r.passesCount) + ite(result_of(r.rs.Read, 1) == io.EOF, 1, 0)
+//@ ensures [end-of-file-is-reported-after-the-last-pass] imp(result_of(r.rs.Read, 1) == io.EOF && r.passesLimit > 0 && r.passesCount >= r.passesLimit, err == io.EOF)
+//@ ensures [wraps-around-before-the-last-pass] imp(result_of(r.rs.Read, 1) == io.EOF && (r.passesLimit <= 0 || r.passesCount < r.passesLimit), calls(r.rs.Seek) == 1 && err == result_of(r.rs.Seek, 1))
+//@ ensures [other-errors-are-passed-on] imp(result_of(r.rs.Read, 1) != io.EOF, err == result_of(r.rs.Read, 1) && calls(r.rs.Seek) == 0)
+//@ at call r.rs.Seek assert [back-to-the-start] arg(a0) == 0 && arg(a1) == io.SeekStart
+//@ modifies r.passesCount
+
+//@ func NewMultiPassReader
+//@ props C08
+//@ modifies nothing
+//@ ensures [one-pass-or-unseekable-source-is-read-once] imp(passes == 1 || !typeis(r, io.ReadSeeker), result == r)
